@@ -649,17 +649,37 @@ def evaluate(cases, exe, tables, spec, r, tmp, V, stats, use_model=True):
         with open(p, "w") as f:
             f.write(render_xml(c, r))
         paths.append(p)
+    # the reader cases go through one harness process; every solver run gets a process of its own, because the
+    # mesh refiner of the unrepaired tree has a heap-use-after-free in split_edge (DESIGN §7 row 4, property C10)
+    # that ASan turns into an abort now and then: such a run says nothing about C18 and is counted, not judged
+    nread = len([c for c in cases if c["kind"] != "run"])
+    assert all(c["kind"] != "run" for c in cases[:nread]) and all(c["kind"] == "run" for c in cases[nread:])
     lines = []
-    for c, p in zip(cases, paths):
-        if c["kind"] == "run":
-            lines += ["dom " + p, "run " + p]
-        else:
-            lines += ["dom " + p, "read " + p]
+    for c, p in zip(cases[:nread], paths):
+        lines += ["dom " + p, "read " + p]
     out, rc, err = vlib.run_lines(exe, lines, timeout=3000, env=HENV)
     if rc != 0 or len(out) != len(lines):
         k = len(out) // 2
-        V.fail_input("harness ended abnormally (rc=%s) at file %d: %s" % (rc, k, err[-800:]),
-                     {"case": cases[k] if k < len(cases) else None, "xml": open(paths[k]).read() if k < len(paths) else None}, key=None)
+        V.fail_input("harness ended abnormally while reading a parameter file (rc=%s)" % rc,
+                     {"case": cases[k] if k < nread else None, "xml": open(paths[k]).read() if k < nread else None, "stderr": err[-1500:]}, key=None)
+    else:
+        for c, p in zip(cases[nread:], paths[nread:]):
+            for attempt in range(3):
+                o2, rc2, err2 = vlib.run_lines(exe, ["dom " + p, "run " + p], timeout=1200, env=HENV)
+                if rc2 == 0 and len(o2) == 2:
+                    break
+                if "heap-use-after-free" in err2 and "local_mesh_refiner::split_edge" in err2:
+                    stats["runs_aborted_by_c10_split_edge"] += 1
+                    o2 = None
+                    continue
+                break
+            if o2 is None:
+                out += ["N -1 C -1", "skipped"]
+            elif rc2 != 0 or len(o2) != 2:
+                V.fail_input("harness ended abnormally during a solver run (rc=%s)" % rc2, {"case": c, "xml": open(p).read(), "stderr": err2[-1500:]}, key=None)
+                out += ["N -1 C -1", "skipped"]
+            else:
+                out += o2
     drv = vlib.driver_path("drv_c18")
     mlines, midx = [], []
     trees = {}
@@ -672,7 +692,7 @@ def evaluate(cases, exe, tables, spec, r, tmp, V, stats, use_model=True):
             V.fail_tie("correspondence", "element tree of file %d not reported by tinyxml2: %r" % (i, out[2 * i][:200]))
             continue
         trees[i] = tree
-        if norm_tree(tree) != norm_tree(expected_tree(c)):
+        if out[2 * i + 1] != "skipped" and norm_tree(tree) != norm_tree(expected_tree(c)):
             stats["dom_mismatch"] += 1
             if stats["dom_mismatch"] <= 2:
                 V.fail_tie("correspondence", "tinyxml2 reports a different element tree than the one generated (file %d)" % i, xml=open(paths[i]).read()[:3000])
@@ -693,6 +713,8 @@ def evaluate(cases, exe, tables, spec, r, tmp, V, stats, use_model=True):
     for i, c in enumerate(cases):
         if 2 * i + 1 >= len(out):
             break
+        if out[2 * i + 1] == "skipped":
+            continue
         ans = parse_answer(out[2 * i + 1])
         stats["kinds"][c["kind"]] = stats["kinds"].get(c["kind"], 0) + 1
         if c["target"]:
@@ -711,7 +733,10 @@ def evaluate(cases, exe, tables, spec, r, tmp, V, stats, use_model=True):
         if res:
             nfail += 1
             stats["oracle_failures"] += 1
-            if stats["oracle_failures"] <= 40:
+            # one replay per class of failure (the first, with the tag it was seen on); a keyed known finding is its own class
+            cls = res[1] or re.sub(r"<\w+>|member \w+|\(\w+ \w+\)", "*", res[0])
+            stats["failure_classes"][cls] = stats["failure_classes"].get(cls, 0) + 1
+            if stats["failure_classes"][cls] == 1:
                 V.fail_input(res[0], {"case": c, "xml": open(paths[i]).read(), "answer": out[2 * i + 1][:2000], "detail": res[2]}, key=res[1])
         if i in model:
             d = compare(model[i], ans, tables)
@@ -724,6 +749,25 @@ def evaluate(cases, exe, tables, spec, r, tmp, V, stats, use_model=True):
     return nfail
 
 
+def failing_theorems(proof):
+    """names of the theorems of Properties/C18.lean inside which the build log reports an error"""
+    try:
+        src = open(os.path.join(vlib.LEAN, "SimuVerif", "Properties", "C18.lean")).read().splitlines()
+    except OSError:
+        return set()
+    starts = [(i + 1, m.group(1)) for i, l in enumerate(src) for m in [re.match(r"theorem (\w+)", l)] if m]
+    out = set()
+    for e in proof.get("errors", []):
+        m = re.search(r"Properties/C18\.lean:(\d+):", e)
+        if not m:
+            continue
+        ln = int(m.group(1))
+        prev = [n for (l0, n) in starts if l0 <= ln]
+        if prev:
+            out.add(prev[-1])
+    return out
+
+
 def run(ctx):
     tier, seed = ctx["tier"], ctx["seed"]
     t0 = time.time()
@@ -731,8 +775,15 @@ def run(ctx):
     spec = load_spec()
     gen = vlib.translate.run(GEN)
     proof = vlib.prove(PID, THEOREMS, NAMESPACE, extra_targets=("drv_c18",))
+    gen_failed = any("error" in g for g in gen.values())
+    if gen_failed:
+        V.fail_tie("proof", "the parameter tables can no longer be extracted from the source: %s" % "; ".join(g.get("error", "") for g in gen.values()))
+    culprits = failing_theorems(proof)
     for f in proof["failures"]:
-        V.fail_tie("proof", "%s: %s" % (f["theorem"], f["reason"]), errors=proof["errors"][:6])
+        if culprits and f["theorem"].split(".")[-1] not in culprits and f["reason"].startswith("not checked"):
+            continue      # same module as the theorem that broke: not itself in doubt
+        V.fail_tie("proof", "%s: %s" % (f["theorem"], f["reason"] if not culprits else "no longer checks against the regenerated tables"),
+                   errors=[e for e in proof["errors"] if "error" in e][:6])
     if tier == "thorough" and proof["ok"]:
         ok, log = vlib.leanchecker("SimuVerif.Properties.C18")
         if not ok:
@@ -751,15 +802,17 @@ def run(ctx):
         n = max(n, 4000)      # a proof / the translation broke: widen the search for a concrete failing input
     r = Rng(seed)
     stats = {"kinds": {}, "targets": {}, "ncell": {}, "samples": [], "oracle_failures": 0, "model_agrees": 0,
-             "model_disagrees": 0, "dom_mismatch": 0, "run_iterations": []}
+             "model_disagrees": 0, "dom_mismatch": 0, "run_iterations": [], "failure_classes": {}, "runs_aborted_by_c10_split_edge": 0}
     tmp = tempfile.mkdtemp(prefix="c18_")
     try:
         cases = build_cases(r, spec, n)
         cases += [run_case(r, spec, vlib.REPO, tmp, k) for k in range(nrun)]
-        evaluate(cases, exe, tables, spec, r, tmp, V, stats, use_model=True)
+        # when the tables could not be regenerated the driver on disk is stale: comparing with it would mean nothing
+        evaluate(cases, exe, tables, spec, r, tmp, V, stats, use_model=not gen_failed)
     finally:
         shutil.rmtree(tmp, ignore_errors=True)
-    # a model/implementation disagreement that is only the known finding is explained by it
+    if nrun and not stats["run_iterations"]:
+        V.fail_tie("correspondence", "no solver run completed (%d aborted by the split_edge use-after-free of C10)" % stats["runs_aborted_by_c10_split_edge"])
     rcode, nviol = V.finish()
     distinct = len({json.dumps([c["kind"], c["num"], c["cells"]], sort_keys=True, default=str) for c in cases})
     cov = {
@@ -783,8 +836,9 @@ def run(ctx):
                 "magnitudes 1e-30..1e30 in 8 notations, +/-0, INF spellings; kinds valid/omit/sign/order/dup/structure/badnum; + solver runs",
         "kinds": stats["kinds"], "targets": stats["targets"], "cell_types_per_file": stats["ncell"],
         "model_vs_impl_agree": stats["model_agrees"], "model_vs_impl_disagree": stats["model_disagrees"],
-        "dom_mismatch": stats["dom_mismatch"], "oracle_failures": stats["oracle_failures"],
+        "dom_mismatch": stats["dom_mismatch"], "oracle_failures": stats["oracle_failures"], "oracle_failure_classes": stats["failure_classes"],
         "solver_runs": len(stats["run_iterations"]), "solver_run_iterations": stats["run_iterations"],
+        "solver_runs_aborted_by_c10_split_edge_uaf": stats["runs_aborted_by_c10_split_edge"],
         "repo_objects_rebuilt": rebuilt, "samples": stats["samples"],
     }
     vlib.write_evidence(PID, tier, "proof", cov, [
